@@ -97,14 +97,43 @@ pub fn check_case(rep: &Report, case: &Case, labels: &[String], local: &mut Loca
     }
 }
 
+/// Amplitude sweeps: uniform noise (optionally after 128 silent samples) whose amplitude runs through
+/// the region where predicted subframes are near break-even with verbatim.
+fn amplitude_sweep(thorough: bool) -> ustream::Group {
+    let mut cases = Vec::new();
+    let base = crate::universe::decode(&crate::universe::base_points()[0]);
+    for &(bps, bs) in &[(16u8, 4096u32), (16, 256), (12, 1024), (20, 576), (24, 4096)] {
+        let max = (1u64 << (bps - 1)) - 1;
+        let steps = if thorough { 400 } else { 100 };
+        for k in 0..steps {
+            // upper 40 % of the amplitude range, evenly
+            let amp = max * 6 / 10 + (max * 4 / 10) * k / steps;
+            for atom in [31u8, 32] {
+                for lpc_order in [10u8, 24] {
+                    let mut c = base.clone();
+                    c.input.bps = bps;
+                    c.input.bs = bs;
+                    c.input.full = 1;
+                    c.input.tail = 0;
+                    c.input.atoms = [atom; 4];
+                    c.input.seed = amp;
+                    c.cfg.lpc_order = lpc_order;
+                    cases.push(c);
+                }
+            }
+        }
+    }
+    ustream::Group { name: "GA", describe: "GA: amplitude sweep (upper 40 % of the range in 100/400 steps) of uniform noise, with and without 128 leading silent samples, x (bps, block size) {(16,4096),(16,256),(12,1024),(20,576),(24,4096)} x LPC order {10,24}, mono".into(), cases }
+}
+
 pub fn run(args: &Args, rep: &Arc<Report>) {
     let thorough = args.tier == "thorough";
     let groups = if args.replay.is_some() {
         vec![]
     } else if thorough {
-        vec![ustream::g9(&[64, 192, 576, 4096])]
+        vec![ustream::g9(&[64, 192, 576, 4096]), amplitude_sweep(true)]
     } else {
-        vec![ustream::g9(&[64, 192, 576])]
+        vec![ustream::g9(&[64, 192, 576]), amplitude_sweep(false)]
     };
     let d = if thorough { 3 } else { 2 };
     drive(args, rep, d, true, groups, |case, labels, local| {
